@@ -261,6 +261,20 @@ theorem ifW_final (s : St) (o : Op) (h : Finished o ∨ AwaitsMpi s o) :
   · rcases h3 with ⟨h3, _⟩ | ⟨h3, _⟩ <;> simp [ifW, gacW, h1, h3, rsIF, rsGac, b2n]
   · rcases h5 with ⟨h5, h6, _⟩ | ⟨h5, h6⟩ <;> simp [ifW, gacW, h5, h6, rsIF, rsGac, b2n]
 
+/-- a state of measure 0 is maximal (every obligatory step would decrease the measure) -/
+theorem maximal_of_mu_zero (s : St) (h0 : mu s = 0) : Maximal s := by
+  intro e he
+  have hmv := pika_moves e he
+  refine ⟨?_, ?_⟩
+  · cases hs : step s e with
+    | none => rfl
+    | some s1 => have := mu_moves s s1 e hmv hs; omega
+  · intro a s1 hl
+    have hmu := mu_neutral s s1 (.lock a) rfl hl
+    cases hs : step s1 e with
+    | none => rfl
+    | some s2 => have := mu_moves s1 s2 e hmv hs; omega
+
 /-- from any state pika's own steps (plus lock acquisitions) lead to a maximal state within
     `2 * mu s` events -/
 theorem exists_maximal (k : Nat) : ∀ s : St, mu s ≤ k →
